@@ -18,6 +18,7 @@ func init() {
 		Assumptions: []string{"messages classified 'must not change state' are invalid by construction (forged proofs, wrong signatures, out-of-range fields); flipped genuine traffic carries no state claim", "allocation bound 256 MiB per message", "liveness demanded >= 90 s of quiet virtual time after the last hostile message"},
 		QuickRuns: 200, QuickBudget: 75 * time.Second, ThoroughRuns: 8000, ThoroughBudget: 25 * time.Minute,
 		RunsPerProcess: 40, RunTimeout: 600 * time.Second,
+		HangTimeout: 40 * time.Second, OnHang: cluster.HostileHang,
 		Run: func(c *kernel.Ctx) { cluster.RunMode(c, cluster.ModeHostile) },
 	})
 }
